@@ -25,6 +25,12 @@ failing COMMIT, a failing PRAGMA; 1..6 times in a row) and observe refusals by t
 contention (a worker held between INSERT and COMMIT; a connection outside the evaluation holding BEGIN EXCLUSIVE; busy
 timeout shortened).  The model (Model/Parallel.v XRefused) says a refused attempt changes nothing and the write is
 retried until it goes through: exactly one objective call per design, nothing in problem.failed, rows = final data.
+
+Ambient joblib configuration (red-team round 2): Algorithm.evaluate is also run INSIDE the caller's own
+`joblib.parallel_backend('threading' | 'loky' | 'multiprocessing')` / `joblib.parallel_config(backend=…, prefer='threads',
+require='sharedmem', n_jobs=…)` contexts (11 configurations): the evaluation asks for shared memory, so the workers stay threads on
+the caller's designs; gated sessions (compared with the model as every other schedule) and a plain picklable Problem (so that
+workers that are processes really run: the caller's designs stay EMPTY, the objective is never called in this process).
 """
 import contextlib
 import io
@@ -56,6 +62,10 @@ TRUSTED = [
     "raises OperationalError('database is locked') 1..6 times in a row, the COMMIT fails and is rolled back, a PRAGMA of conn() fails) "
     "and by REAL lock contention (a worker held between INSERT and COMMIT while the others write; a connection outside the evaluation "
     "holding BEGIN EXCLUSIVE) with the busy timeout shortened from 5 s to 8 ms, which only scales the waiting time",
+    "joblib's choice of backend is not modelled: the evaluation is run under 11 ambient joblib configurations (parallel_backend / "
+    "parallel_config with thread and process backends, prefer, require, n_jobs) and must give the per-design result of the serial "
+    "evaluation in the caller's process under each; parallel_config(prefer='processes') is excluded (joblib rejects it together with "
+    "require='sharedmem' with a ValueError before any worker starts: observed and recorded, no schedule ever runs)",
     "the objective, the constraint function and VectorAndNumbers.gen_vector are oracles: scripted by the harness per (design, attempt) "
     "and given to the model as tables; the theorems hold for every oracle that does not look at the global call order",
     "np.round / sign product: binary64 driver of Run/C05Run.v, compared bit for bit; JSON/SQLite round trip of a row is C10's subject",
@@ -479,6 +489,23 @@ class Lab:
         self.nfile += 1
         return os.path.join(self.ctx.work, "s_%06d.sqlite" % self.nfile)
 
+    def ambient(self, amb):
+        """the caller's own joblib configuration around Algorithm.evaluate: ('backend', name) = joblib.parallel_backend(name),
+        ('config', kwargs) = joblib.parallel_config(**kwargs); None when this joblib cannot do it.  NB: joblib installs the
+        configuration when the object is CONSTRUCTED (not at __enter__): the result must be entered (and left) at once"""
+        import joblib
+        if not amb:
+            return contextlib.nullcontext()
+        kind, arg = amb
+        try:
+            if kind == "backend":
+                return joblib.parallel_backend(arg)
+            if kind == "config" and hasattr(joblib, "parallel_config"):
+                return joblib.parallel_config(**dict(arg))
+        except Exception as e:          # a backend that is not installed here
+            self.ambient_unavailable = getattr(self, "ambient_unavailable", []) + ["%r: %r" % (amb, e)]
+        return None
+
 
 class JobProxy:
     """Stands in for evaluator.job: same Job.evaluate, plus a notification when it has returned."""
@@ -899,10 +926,12 @@ class Session:
             if holder is not None:
                 holder.start()
                 holder.ready.wait(3)
+            ambient = (lab.ambient(cfg.get("ambient")) if self.processes > 1 else None) or contextlib.nullcontext()
             with contextlib.redirect_stdout(out), contextlib.redirect_stderr(out):
                 try:
                     self.in_evaluate = True
-                    alg.evaluate(batch)
+                    with ambient:
+                        alg.evaluate(batch)
                 except BaseException as e:       # noqa: what the caller of Algorithm.evaluate sees
                     self.exc = e
                 self.in_evaluate = False
@@ -988,6 +1017,8 @@ def oracle(par, ser, cfg, label):
            "criteria": cfg["crit"], "scripted_failures": {"%d:%d" % k: v for k, v in cfg["fails"].items()},
            "state_at_entry": {str(i): p["state"] for i, p in enumerate(cfg["presets"]) if p},
            "gate_trace": [list(e) for e in par.ctl.trace][:60]}
+    if cfg.get("ambient"):
+        inp["ambient_joblib_configuration"] = "joblib.parallel_%s(%r) around Algorithm.evaluate" % tuple(cfg["ambient"])
 
     def add(what, kind="parallel", **detail):
         if len(out) < 6:
@@ -1262,6 +1293,128 @@ def store_fault_streams(ctx, lab, rng, acc):
         one(ctx, lab, cfg, 2, pol, pol.__name__[4:] + ":sync_all", acc)
 
 
+AMBIENT = [["backend", "threading"], ["backend", "loky"], ["backend", "multiprocessing"],
+           ["config", {"backend": "loky"}], ["config", {"backend": "multiprocessing"}], ["config", {"backend": "threading"}],
+           ["config", {"prefer": "threads"}], ["config", {"require": "sharedmem"}], ["config", {"backend": "loky", "n_jobs": 3}],
+           ["config", {"backend": "multiprocessing", "n_jobs": 1}], ["config", {"n_jobs": 1}]]
+# NOT in the list: parallel_config(prefer='processes').  joblib itself rejects the combination with the evaluation's
+# require='sharedmem' (ValueError "prefer == 'processes' and require == 'sharedmem' are inconsistent settings") before any
+# worker starts: the unchanged Algorithm.evaluate raises, loudly, nothing is evaluated; recorded in the evidence
+# (distribution.ambient.prefer_processes), described in notes/C07.md, not part of the property (no schedule ever runs).
+
+
+def ambient_backend_streams(ctx, lab, rng, acc):
+    """red-team round 2: the caller of Algorithm.evaluate has configured joblib for its own purposes (`with
+    joblib.parallel_backend('loky')`, `parallel_config(prefer='processes')`, as scikit-learn users do).  The evaluation asks for
+    shared memory, so the workers stay threads working on the caller's designs whatever the ambient configuration is: same
+    per-design result as serial.  (a) gated sessions, compared with the model like every other schedule; (b) a plain Problem
+    without any harness object in it (picklable, so that workers that ARE processes run and the loss shows as such)."""
+    import joblib
+    h = acc["hist"].setdefault("ambient", {"joblib": joblib.__version__, "gated": 0, "plain": 0, "configurations": [], "unavailable": []})
+    usable = []
+    for amb in AMBIENT:
+        cm = lab.ambient(amb)
+        if cm is None:
+            h["unavailable"].append(amb)
+        else:
+            with cm:
+                pass
+            usable.append(amb)
+    h["configurations"] = usable
+    h["unavailable"] += getattr(lab, "ambient_unavailable", [])
+    # (b) first: its failing inputs are the plain ones
+    from artap.problem import Problem
+
+    class Plain(Problem):
+        def set(self, **kwargs):
+            self.name = "c07 plain"
+            self.parameters = [{"name": "x_1", "initial_value": 0.0, "bounds": [-10, 10]}, {"name": "x_2", "initial_value": 0.0, "bounds": [-10, 10]}]
+            self.costs = [{"name": "F", "criteria": "minimize"}, {"name": "G", "criteria": "maximize"}]
+            self.calls = []
+
+        def evaluate(self, individual):
+            self.calls.append((individual.id, os.getpid()))
+            x = [float(v) for v in individual.vector]
+            return [x[0] * x[0] + x[1] * x[1], x[0] - x[1]]
+
+    def plain_run(vectors, workers, amb):
+        with contextlib.redirect_stderr(io.StringIO()):
+            p = Plain()
+        p.logger.setLevel(lab.logging.CRITICAL)
+        path = lab.db_path()
+        p.data_store = lab.SqliteDataStore(p, database_name=path)
+        batch = [lab.Individual(list(v)) for v in vectors]
+        alg = lab.DummyAlgorithm(p)
+        alg.options["max_processes"] = workers
+        exc = None
+        out = io.StringIO()
+        with contextlib.redirect_stdout(out), contextlib.redirect_stderr(out):
+            try:
+                with (lab.ambient(amb) if workers > 1 else None) or contextlib.nullcontext():
+                    alg.evaluate(batch)
+            except BaseException as e:      # noqa: what the caller sees
+                exc = e
+        rows = {}
+        try:
+            with contextlib.redirect_stderr(io.StringIO()), contextlib.redirect_stdout(io.StringIO()):
+                view = lab.ProblemViewDataStore(database_name=path)
+            lab.tidy(view)
+            rows = {r.id: (list(r.costs), list(r.costs_signed), str(r.state).upper()) for r in view.individuals}
+            view.data_store.destroy()
+        except Exception as e:
+            rows = {"unreadable": repr(e)}
+        p.data_store.destroy()
+        lab.tidy(p)
+        return p, batch, rows, exc
+
+    grid = [-2.0, -1.0, 0.5, 0.0, 1.5, 3.0, 4.0, 0.1]
+    if hasattr(joblib, "parallel_config"):      # observed, not judged (see the comment at AMBIENT)
+        _, b, _, exc = plain_run([[1.0, 2.0], [0.5, 0.0]], 2, ["config", {"prefer": "processes"}])
+        h["prefer_processes"] = ("Algorithm.evaluate raises %r" % (exc,)) if exc is not None else "evaluated: " + ",".join(i.state.name for i in b)
+    for rep in range(ctx.pick(1, 4)):
+        for amb in usable:
+            if len(ctx.oracle_failures) >= 30:
+                break
+            vectors = [[rng.choice(grid), rng.choice(grid)] for _ in range(rng.choice([3, 4, 5]))]
+            workers = rng.choice([2, 2, 3])
+            _, ser, _, sexc = plain_run(vectors, 1, None)
+            p, par, rows, exc = plain_run(vectors, workers, amb)
+            inp = {"ambient_joblib_configuration": "joblib.parallel_%s(%r) around Algorithm.evaluate" % tuple(amb), "workers": workers,
+                   "vectors": vectors, "objective": "plain Problem: [x^2 + y^2, x - y], criteria minimize / maximize", "store": "sqlite"}
+
+            def add(what, **kw):
+                if len(ctx.oracle_failures) < 40:
+                    ctx.oracle_failures.append({"what": what, "input": dict(inp, **kw), "match": {"kind": "parallel"}})
+            if exc is not None or sexc is not None:
+                add("evaluation under an ambient joblib configuration raised %r (serial: %r)" % (exc, sexc))
+            me = os.getpid()
+            for k, (a, b) in enumerate(zip(ser, par)):
+                fa = (list(a.costs), list(a.costs_signed), a.state.name)
+                fb = (list(b.costs), list(b.costs_signed), b.state.name)
+                if not (same_vec(fa[0], fb[0]) and same_signed(fa[1], fb[1]) and fa[2] == fb[2]):
+                    add("design %d differs between parallel and serial evaluation of the same batch" % k, design=k, vector=vectors[k],
+                        serial=fa, parallel=fb)
+                mine = [pid for i, pid in p.calls if i == b.id]
+                if len(mine) != 1 or mine[0] != me:
+                    add("objective invoked %d time(s) for the caller's design %d (exactly once is required)" % (len(mine), k), design=k,
+                        vector=vectors[k])
+                row = rows.get(b.id)
+                if fb[2] == "EVALUATED" and (row is None or not (same_vec(row[0], fb[0]) and same_signed(row[1], fb[1]) and row[2] == "EVALUATED")):
+                    add("evaluated design %d is not in the store with its final data" % k, design=k, row=row, final=fb)
+            h["plain"] += 1
+            ctx.count(("ambient-plain", repr(amb), workers, len(vectors), tuple(map(tuple, vectors))), nontrivial=True)
+
+    # (a)
+    for rep in range(ctx.pick(1, 5)):
+        for amb in usable:
+            n = rng.choice([2, 3, 4])
+            cfg = rand_cfg(rng, n, fail_rate=rng.choice([0.0, 0.3]), pre_rate=0.0 if rep == 0 else 0.12)
+            cfg["ambient"] = amb
+            pol = rng.choice([pol_lifo, pol_round_robin, pol_obj_first, pol_random(rng.getrandbits(32)), None])
+            name = "free" if pol is None else pol.__name__.replace("pol_", "")
+            one(ctx, lab, cfg, 2 if n < 4 else rng.choice([2, 3]), pol, name + ":ambient", acc, switch=1e-6 if pol is None else None)
+            h["gated"] += 1
+
 # ----------------------------------------------------------------------------- main
 def one(ctx, lab, cfg, k, policy, label, acc, switch=None):
     if len(ctx.oracle_failures) >= 40 and acc["hist"]["schedules"] >= 12:
@@ -1280,7 +1433,7 @@ def one(ctx, lab, cfg, k, policy, label, acc, switch=None):
                         "final_parallel": par.after, "final_serial": ser.after, "rows_parallel": par.rows,
                         "exception": repr(par.exc) if par.exc else None, "anomalies": par.anomalies[:3],
                         "store_faults": {str(k): v for k, v in (cfg.get("store_faults") or {}).items()}, "contention": cfg.get("contend"),
-                        "sync_all": bool(cfg.get("sync_all")), "store_refusals": par.store_stats})
+                        "sync_all": bool(cfg.get("sync_all")), "store_refusals": par.store_stats, "ambient": cfg.get("ambient")})
     for what, detail, kind in oracle(par, ser, cfg, label):
         if len(ctx.oracle_failures) < 40:
             ctx.oracle_failures.append({"what": what, "input": detail, "match": {"kind": kind}})
@@ -1353,6 +1506,8 @@ def run(ctx):
     # ---- the store refuses writes (red-team lesson): sync_individual must absorb it - retry until the row is written -
     # without the evaluation noticing: exactly one objective call per design, nothing in problem.failed, rows = final data
     store_fault_streams(ctx, lab, rng, acc)
+    # ---- the caller's own joblib configuration around the evaluation (red-team round 2)
+    ambient_backend_streams(ctx, lab, rng, acc)
     # ---- generated controlled schedules
     n_sched = ctx.pick(24, 400)
     for j in range(n_sched):
@@ -1412,7 +1567,9 @@ def run(ctx):
                 "sequence of (design, gate) events); store-fault stream: the write of chosen rows is refused 1..6 times in a row at the "
                 "INSERT / at the COMMIT / in conn()'s PRAGMAs (injected), or by real lock contention (worker held between INSERT and COMMIT "
                 "until another worker has been refused r = 1..6 times; foreign connection holding BEGIN EXCLUSIVE), plus sync_all after "
-                "the batch")
+                "the batch; ambient stream: the same evaluation inside joblib.parallel_backend / parallel_config contexts (threading, loky, "
+                "multiprocessing, prefer / require / n_jobs): gated sessions and a plain picklable Problem, per-design result = serial, "
+                "objective called once per design in the caller's process")
     ctx.extra.update({"schedules": acc["hist"]["schedules"], "distribution": acc["hist"]})
 
 
